@@ -417,62 +417,186 @@ def rings_closed_within(sub, root):
     return all(total[rid] == c and c % 2 == 0 for rid, c in inside.items())
 
 
-def add_multipliers(R, chain, feats, depth=0, in_unit=False, p_node=0.25, p_branch=0.35, first=True, root=None):
-    """decorate a multiplier-free AST in place; records feature labels in feats"""
+def add_multipliers(R, chain, p_node=0.25, p_branch=0.35, root=None):
+    """decorate a multiplier-free AST in place with node and unit multipliers"""
     root = chain if root is None else root
-    for pos, nd in enumerate(chain):
+    for nd in chain:
         for br in nd.branches:
-            add_multipliers(R, br[1], feats, depth + 1, in_unit, p_node, p_branch, False, root)
+            add_multipliers(R, br[1], p_node, p_branch, root)
         if nd.rings:
             continue
         if not nd.branches and R.chance(p_node):
             nd.mult = R.choice(MULTS)
+        elif len(nd.branches) == 1 and rings_closed_within(nd.branches[0][1], root) and R.chance(p_branch):
+            br = nd.branches[0]
+            br[2] = R.choice(MULTS[:-1])
+            br[3] = R.choice([None, None, 0, 1, 2, 3, 4])
+
+
+def mult_features(chain, feats=None, depth=0, top=True, in_unit=False):
+    """feature labels of a multiplier-decorated AST (computed from the AST alone)"""
+    feats = set() if feats is None else feats
+    for pos, nd in enumerate(chain):
+        if nd.mult is not None:
             feats.add('node_mult')
             if nd.nxt is not None:
                 feats.add('node_mult_then_sym')
             if nd.mult == 1:
                 feats.add('node_mult_1')
-            if first and pos == 0 and depth == 0:
+            if nd.mult >= 2:
+                feats.add('n>=2')
+            if top and pos == 0:
                 feats.add('node_mult_first')
             if depth > 0:
                 feats.add('node_mult_in_branch')
             if nd.annot:
                 feats.add('node_mult_annot')
-        elif len(nd.branches) == 1 and rings_closed_within(nd.branches[0][1], root) and R.chance(p_branch):
-            br = nd.branches[0]
-            n = R.choice(MULTS[:-1])
-            between = R.choice([None, None, 0, 1, 2, 3, 4])
-            br[2], br[3] = n, between
-            feats.add('branch_mult')
-            if n == 1:
-                feats.add('branch_mult_1')
-            if between is not None:
-                feats.add('between_sym')
-            if br[0] is not None:
-                feats.add('unit_anchor_sym')
-            if nd.nxt is not None:
-                feats.add('branch_mult_then_sym')
-            subn = list(all_nodes(br[1]))
-            if any(x.rings for x in subn):
-                feats.add('ring_in_unit')
-            if any(x.branches for x in subn):
-                feats.add('nested_branch_in_unit')
-            if any(len(x.branches) > 1 for x in subn):
-                feats.add('two_branches_in_unit')
-            if any(x.mult for x in subn):
+            if in_unit:
                 feats.add('node_mult_in_unit')
-            if any(b[2] for x in subn for b in x.branches):
-                feats.add('branch_mult_in_unit')
-            if br[1][-1].branches:
-                feats.add('unit_ends_close_close')
-            if any(x.nxt is not None or any(b[0] is not None for b in x.branches) for x in subn):
-                feats.add('order_in_unit')
-            if any(x.annot for x in subn) or nd.annot:
-                feats.add('annot_in_unit')
-            if depth > 0:
-                feats.add('branch_mult_in_branch')
-            if first and pos == 0 and depth == 0:
-                feats.add('branch_mult_first')
+        for br in nd.branches:
+            unit = br[2] is not None
+            if unit:
+                n, between = br[2], br[3]
+                feats.add('branch_mult')
+                if n == 1:
+                    feats.add('branch_mult_1')
+                if n >= 2:
+                    feats.add('n>=2')
+                if between is not None:
+                    feats.add('between_sym')
+                if br[0] is not None:
+                    feats.add('unit_anchor_sym')
+                if nd.nxt is not None:
+                    feats.add('branch_mult_then_sym')
+                subn = list(all_nodes(br[1]))
+                if any(x.rings for x in subn):
+                    feats.add('ring_in_unit')
+                if any(x.branches for x in subn):
+                    feats.add('nested_branch_in_unit')
+                if any(len(x.branches) > 1 for x in subn):
+                    feats.add('two_branches_in_unit')
+                if br[1][-1].branches:
+                    feats.add('unit_ends_close_close')
+                if any(x.nxt is not None or any(b[0] is not None for b in x.branches) for x in subn):
+                    feats.add('order_in_unit')
+                if any(x.annot for x in subn) or nd.annot:
+                    feats.add('annot_in_unit')
+                if depth > 0:
+                    feats.add('branch_mult_in_branch')
+                if top and pos == 0:
+                    feats.add('branch_mult_first')
+                if in_unit:
+                    feats.add('branch_mult_in_unit')
+                if _branch_depth(br[1]) >= 2:
+                    feats.add('nested_depth2_in_unit')
+                if sum(len(x.branches) for x in subn) >= 2:
+                    feats.add('multiple_nested_branches_in_unit')
+                if len(nd.branches) > 1:
+                    feats.add('multiplied_anchor_has_two_branches')
+                if nd.rings:
+                    feats.add('multiplied_anchor_has_ring')
+            mult_features(br[1], feats, depth + 1, False, in_unit or unit)
+    if top and depth == 0:
+        _stale_recipe_units(chain, 0, {'closed': 0}, feats)
+    return feats
+
+
+def _branch_depth(chain):
+    """maximal nesting depth of branches inside chain (0 = flat)"""
+    return max([1 + _branch_depth(b[1]) for nd in chain for b in nd.branches] or [0])
+
+
+def _stale_recipe_units(chain, depth, state, feats):
+    """label units whose anchor sits inside an enclosing branch in which another branch has
+    been closed before (text order)"""
+    for nd in chain:
+        for br in nd.branches:
+            if br[2] is not None and depth >= 1 and state['closed'] > 0:
+                feats.add('unit_after_closed_branch')
+            _stale_recipe_units(br[1], depth + 1, state, feats)
+            if depth == 0:
+                state['closed'] = 0
+            else:
+                state['closed'] += 1
+
+
+# ----------------------------------------------------------------------------------------
+# text -> AST (own recursive-descent parser of the documented grammar; used to build
+# regression cases from strings, never as an oracle for generated cases)
+# ----------------------------------------------------------------------------------------
+_SYMVAL = {v: k for k, v in SYM.items()}
+
+
+def parse(text, attrs_of=None):
+    assert text[0] == '{' and text[-1] == '}', text
+    s = text[1:-1]
+    pos = [0]
+
+    def peek():
+        return s[pos[0]] if pos[0] < len(s) else ''
+
+    def number():
+        st = pos[0]
+        while peek().isdigit():
+            pos[0] += 1
+        return s[st:pos[0]]
+
+    def chain():
+        out = []
+        while peek() == '[':
+            end = s.index(']', pos[0])
+            body = s[pos[0] + 2:end]
+            pos[0] = end + 1
+            name, _, ann = body.partition(';')
+            nd = Node(name, (';' + ann) if ann else '', dict(attrs_of(ann)) if (attrs_of and ann) else {})
+            if peek() == '|':
+                pos[0] += 1
+                nd.mult = int(number())
+            while True:
+                c = peek()
+                c2 = s[pos[0] + 1] if pos[0] + 1 < len(s) else ''
+                o = None
+                if c in _SYMVAL and (c2.isdigit() or c2 == '%'):
+                    o = _SYMVAL[c]
+                    pos[0] += 1
+                    c = peek()
+                if c.isdigit():
+                    pos[0] += 1
+                    nd.rings.append([o, int(c), c])
+                elif c == '%':
+                    pos[0] += 1
+                    num = number()
+                    nd.rings.append([o, int(num), '%' + num])
+                elif (c in _SYMVAL and c2 == '(') or c == '(':
+                    bo = None
+                    if c != '(':
+                        bo = _SYMVAL[c]
+                        pos[0] += 1
+                    pos[0] += 1
+                    sub = chain()
+                    assert peek() == ')', (text, pos[0])
+                    pos[0] += 1
+                    br = [bo, sub, None, None]
+                    c = peek()
+                    c2 = s[pos[0] + 1] if pos[0] + 1 < len(s) else ''
+                    if c == '|' or (c in _SYMVAL and c2 == '|'):
+                        if c != '|':
+                            br[3] = _SYMVAL[c]
+                            pos[0] += 1
+                        pos[0] += 1
+                        br[2] = int(number())
+                    nd.branches.append(br)
+                else:
+                    break
+            if peek() in _SYMVAL and peek() != '':
+                nd.nxt = _SYMVAL[peek()]
+                pos[0] += 1
+            out.append(nd)
+        return out
+
+    res = chain()
+    assert pos[0] == len(s), (text, pos[0])
+    return res
 
 
 def expand(chain):
@@ -502,3 +626,51 @@ def expand(chain):
             c.nxt = nd.nxt
             out.append(c)
     return out
+
+
+def gen_unit_ast(R, names=('A', 'B', 'C', 'D'), p_annot=0.0):
+    """explicit construction of a string around one multiplied unit:
+    [prefix] anchor sym ( unit ) between |n after [suffix], optionally inside an enclosing branch"""
+    def node():
+        annot, attrs = ('', {})
+        if p_annot and R.chance(p_annot):
+            annot, attrs = gen_annotation(R, BASE_RESERVED)
+        return Node(R.choice(names), annot, attrs)
+
+    def osym(p=0.35):
+        return R.choice(ORDERS) if R.chance(p) else None
+
+    def flat(n):
+        ch = [node() for _ in range(n)]
+        for a in ch[:-1]:
+            a.nxt = osym()
+            if R.chance(0.2):
+                a.mult = R.choice(MULTS)
+        if R.chance(0.2):
+            ch[-1].mult = R.choice(MULTS)
+        return ch
+
+    unit = flat(R.randint(1, 4))
+    # nested branches on non-last nodes (one level)
+    for nd in unit[:-1]:
+        if nd.mult is None and R.chance(0.45):
+            nd.branches.append([osym(), flat(R.randint(1, 2)), None, None])
+    anchor = node()
+    anchor.branches.append([osym(), unit, R.choice(MULTS[:-1]), R.choice([None, None, 0, 1, 2, 3, 4])])
+    chain = [anchor]
+    if R.chance(0.6):
+        anchor.nxt = osym()
+        chain += flat(R.randint(1, 2))
+    if R.chance(0.5):
+        pre = flat(R.randint(1, 2))
+        pre[-1].mult = None
+        pre[-1].nxt = osym()
+        chain = pre + chain
+    if R.chance(0.3):
+        outer = node()
+        outer.branches.append([osym(), chain, None, None])
+        chain = [outer]
+        if R.chance(0.5):
+            outer.nxt = osym()
+            chain.append(node())
+    return chain
